@@ -7,7 +7,7 @@ let short s = if String.length s > 600 then String.sub s 0 600 ^ "..." else s
 let report_mismatch line m = incr mismatches; Printf.printf "MISMATCH %s :: model=%s\n" (short line) (short m)
 let report_spec ?(key = "") line m =
   incr specviol;
-  Printf.printf "SPECVIOL %s :: spec=%s%s\n" (short line) (short m) (if key = "" then "" else " key=" ^ key)
+  Printf.printf "SPECVIOL %s :: spec=%s%s\n" (short line) (short m) (if key = "" then "" else if String.length key > 5 && String.sub key 0 5 = "prop=" then " " ^ key else " key=" ^ key)
 
 let split_on c s = String.split_on_char c s
 let words s = List.filter (fun w -> w <> "") (split_on ' ' s)
